@@ -1,6 +1,8 @@
 import HbsModel.Registry
 import HbsModel.Lemmas.IfBlock
 import HbsModel.Lemmas.IfElseBlock
+import HbsModel.Lemmas.UnlessBlock
+import HbsModel.Lemmas.WithBlock
 import HbsModel.Lemmas.RenderPlain
 import HbsModel.Props.C01
 import HbsModel.Lemmas.RM
@@ -101,32 +103,6 @@ theorem revertChain_step (fuel : Nat) (node : Tmpl) (c : HelperT) (prev : Option
 theorem revertChain_done (fuel : Nat) (prev : Option Tmpl) : revertChain (fuel + 1) none prev = .ok prev := rfl
 
 /-! ### `{{#if v}}A{{/if}}` – at source level -/
-
-/-- a state update that keeps the state quiet is performed as written (the frame it would copy back is already in place) -/
-theorem quiet_modifyAux (rc0 rc : RC) (f : RC → RC) (out : Out) (hq : Quiet rc0 rc) (hf : Quiet rc0 (f rc)) :
-    RM.modifyAux f rc out = .ok () (f rc) out := by
-  rw [RM.modifyAux_apply]
-  have h1 : rc.blocks = (f rc).blocks := by rw [hq.blocks, hf.blocks]
-  have h2 : rc.disableEscape = (f rc).disableEscape := by
-    have a : rc.disableEscape = rc0.disableEscape := by rw [hq]
-    have b : (f rc).disableEscape = rc0.disableEscape := by rw [hf]
-    rw [a, b]
-  have h3 : rc.indentString = (f rc).indentString := by rw [hq.indent, hf.indent]
-  have h4 : rc.pbStack = (f rc).pbStack := by
-    have a : rc.pbStack = rc0.pbStack := by rw [hq]
-    have b : (f rc).pbStack = rc0.pbStack := by rw [hf]
-    rw [a, b]
-  have h5 : rc.pbBinding = (f rc).pbBinding := by
-    have a : rc.pbBinding = rc0.pbBinding := by rw [hq]
-    have b : (f rc).pbBinding = rc0.pbBinding := by rw [hf]
-    rw [a, b]
-  rw [h1, h2, h3, h4, h5]
-
-theorem Quiet.template {rc0 rc : RC} (h : Quiet rc0 rc) : rc.currentTemplate = rc0.currentTemplate := by rw [h]
-
-theorem Quiet.setTemplate {rc0 rc : RC} (h : Quiet rc0 rc) : Quiet rc0 { rc with currentTemplate := rc0.currentTemplate } := by
-  unfold Quiet at *
-  rw [h]
 
 /-- the block element `{{#if v}}A{{/if}}` compiles to writes `A` when `data.v` is truthy and nothing otherwise – and leaves
     the render state as it was (up to the write flags) -/
@@ -391,5 +367,307 @@ theorem if_else_block_renders_one_branch (r : Registry) (fs : FS) (L R : Str) (d
   have := render_writes_template r data none ets m { rootTemplate := none } hlen hw
   simp only [Tmpl.name] at this ⊢
   rw [this, htxt]
+
+/-- the general form: ANY block element calling `if` on the path `v` with a one-text body and no else branch – whatever its
+    indentation request (set when the opening tag stands alone on its line) – writes the body when `data.v` is truthy and
+    nothing otherwise -/
+theorem if_text_block_writes (reg : Registry) (root j : Json) (rc0 : RC) (ht : HelperT) (s : Str) (lc : Nat × Nat)
+    (hname : ht.name = .name ['i', 'f']) (hparams : ht.params = [.path (Path.new ['v'] [.named ['v']])]) (hhash : ht.hash = [])
+    (htpl : ht.template = some (Tmpl.empty.pushElement (.raw s) lc.1 lc.2)) (hinv : ht.inverse = none)
+    (hb : rc0.blocks = [{}]) (hi : rc0.indentString = none) (hmc : rc0.modifiedCtx = none) (hct : rc0.currentTemplate = none)
+    (hl : assocGet rc0.localHelpers ['i', 'f'] = none) (hr : assocGet reg.helpers ['i', 'f'] = some (.ifH true))
+    (hsafe : Spec.indexSafe root [['v']] = true) (hj : Spec.descend root [['v']] = some j) :
+    WritesText reg root rc0 (.block ht) (if j.truthy false then s else []) := by
+  intro fuel rc out hq hf
+  have hblocks : rc.blocks = [{}] := by rw [hq.blocks, hb]
+  have hev : evaluate2 root (.relative [.named ['v']] ['v']) rc out = .ok (.context j [['v']]) rc out := by
+    have := C01.navigate_current_path_scope root {} [] ['v'] [] rc out (by simp [getInBlockParams, assocGet]) rfl (by simpa using hsafe)
+    simp only [C01.names, List.map_cons, List.map_nil] at this
+    simp only [evaluate2, RM.bind_def, RM.bnd_apply, RM.get_apply, hblocks, this, C01.blockValue, Spec.descend]
+    simp only [Option.bind]
+    have hj' : (Spec.step root ['v']).bind (fun v' => Spec.descend v' []) = some j := by simpa [Spec.descend] using hj
+    simp [Spec.descend] at hj' ⊢
+    rw [hj']
+  have hmc' : rc.modifiedCtx = none := by rw [hq]; exact hmc
+  have hl' : assocGet rc.localHelpers ['i', 'f'] = none := by rw [hq]; exact hl
+  have hpath : Path.new ['v'] [.named ['v']] = .relative [.named ['v']] ['v'] := rfl
+  have hh : helperFromTemplate reg root (fuel + 4) ht rc out
+      = .ok { name := ['i', 'f'], params := [⟨some ['v'], .context j [['v']]⟩], hash := [], template := some (Tmpl.empty.pushElement (.raw s) lc.1 lc.2), inverse := none, blockParam := ht.blockParam, block := ht.block } rc out := by
+    simp [helperFromTemplate, hname, hparams, hhash, htpl, hinv, expandAsName, expandParams, expandParam, expandHash,
+      RM.bnd_apply, hmc', hpath, hev, Path.raw]
+  have hm1 := quiet_modifyAux rc0 rc (fun r => { r with contentProduced := false, indentBeforeWrite := rc.indentBeforeWrite || (ht.indentBeforeWrite && r.trailingNewline) }) out hq (hq.flags _ _ _)
+  have hcall := if_renders_selected reg root (fuel + 3) true { name := ['i', 'f'], params := [⟨some ['v'], .context j [['v']]⟩], hash := [], template := some (Tmpl.empty.pushElement (.raw s) lc.1 lc.2), inverse := none, blockParam := ht.blockParam, block := ht.block } ⟨some ['v'], .context j [['v']]⟩ [] rfl
+  have hc4 : callHelper reg root (fuel + 4) (.ifH true) { name := ['i', 'f'], params := [⟨some ['v'], .context j [['v']]⟩], hash := [], template := some (Tmpl.empty.pushElement (.raw s) lc.1 lc.2), inverse := none, blockParam := ht.blockParam, block := ht.block } = _ := hcall
+  simp only [renderElem, renderHelper, RM.bind_def, RM.bnd_apply, hh, RM.get_apply, hl', hr, hm1, hc4]
+  have hz : ((assocGet ([] : List (Str × PJ)) (str "includeZero")).bind fun x => x.json.asBool?).getD false = false := by simp [assocGet]
+  have hjs : ({ relPath := some ['v'], value := SJ.context j [['v']] } : PJ).json = j := rfl
+  simp only [hz, hjs, if_true]
+  have hqA : Quiet rc0 { rc with contentProduced := false, indentBeforeWrite := rc.indentBeforeWrite || (ht.indentBeforeWrite && rc.trailingNewline) } := hq.flags _ _ _
+  have finish : ∀ (rc2 : RC) (out2 : Out) (txt : Str), Quiet rc0 rc2 → out2.failAt = none → out2.text = out.text ++ txt →
+      ∃ rc' out', RM.modifyAux (fun rc_1 : RC => if rc_1.contentProduced = true then { rc_1 with indentBeforeWrite := rc_1.trailingNewline } else { rc_1 with contentProduced := rc.contentProduced, indentBeforeWrite := rc.indentBeforeWrite }) rc2 out2 = .ok () rc' out'
+        ∧ Quiet rc0 rc' ∧ out'.failAt = none ∧ out'.text = out.text ++ txt := by
+    intro rc2 out2 txt hq2 hf2 ht2
+    have hqG : Quiet rc0 ((fun rc_1 : RC => if rc_1.contentProduced = true then { rc_1 with indentBeforeWrite := rc_1.trailingNewline } else { rc_1 with contentProduced := rc.contentProduced, indentBeforeWrite := rc.indentBeforeWrite }) rc2) := by
+      by_cases hcp : rc2.contentProduced = true
+      · simp only [hcp, ↓reduceIte]; exact Quiet.flags hq2 _ _ _
+      · simp only [hcp, ↓reduceIte]; exact Quiet.flags hq2 _ _ _
+    exact ⟨_, _, quiet_modifyAux rc0 _ _ out2 hq2 hqG, hqG, hf2, ht2⟩
+  by_cases ht : j.truthy false = true
+  · simp only [ht, if_true]
+    obtain ⟨rc2, out2, hbody, hq2, hf2, ht2⟩ := render_text_template reg root rc0 _ out s lc fuel hi hct hqA hf
+    rw [hbody]
+    exact finish rc2 out2 s hq2 hf2 ht2
+  · simp only [ht, Bool.false_eq_true, if_false]
+    exact finish _ out [] hqA hf (by simp)
+
+/-- `if` and `unless` at once (`positive` = which of the two the registry binds the name to): ANY block element calling the helper on the path `v` with a one-text body and no else branch – whatever its
+    indentation request (set when the opening tag stands alone on its line) – writes the body when `data.v` is truthy and
+    nothing otherwise -/
+theorem cond_text_block_writes (positive : Bool) (nm : Str) (reg : Registry) (root j : Json) (rc0 : RC) (ht : HelperT) (s : Str) (lc : Nat × Nat)
+    (hname : ht.name = .name nm) (hparams : ht.params = [.path (Path.new ['v'] [.named ['v']])]) (hhash : ht.hash = [])
+    (htpl : ht.template = some (Tmpl.empty.pushElement (.raw s) lc.1 lc.2)) (hinv : ht.inverse = none)
+    (hb : rc0.blocks = [{}]) (hi : rc0.indentString = none) (hmc : rc0.modifiedCtx = none) (hct : rc0.currentTemplate = none)
+    (hl : assocGet rc0.localHelpers nm = none) (hr : assocGet reg.helpers nm = some (.ifH positive))
+    (hsafe : Spec.indexSafe root [['v']] = true) (hj : Spec.descend root [['v']] = some j) :
+    WritesText reg root rc0 (.block ht) (if (if positive then j.truthy false else !j.truthy false) then s else []) := by
+  intro fuel rc out hq hf
+  have hblocks : rc.blocks = [{}] := by rw [hq.blocks, hb]
+  have hev : evaluate2 root (.relative [.named ['v']] ['v']) rc out = .ok (.context j [['v']]) rc out := by
+    have := C01.navigate_current_path_scope root {} [] ['v'] [] rc out (by simp [getInBlockParams, assocGet]) rfl (by simpa using hsafe)
+    simp only [C01.names, List.map_cons, List.map_nil] at this
+    simp only [evaluate2, RM.bind_def, RM.bnd_apply, RM.get_apply, hblocks, this, C01.blockValue, Spec.descend]
+    simp only [Option.bind]
+    have hj' : (Spec.step root ['v']).bind (fun v' => Spec.descend v' []) = some j := by simpa [Spec.descend] using hj
+    simp [Spec.descend] at hj' ⊢
+    rw [hj']
+  have hmc' : rc.modifiedCtx = none := by rw [hq]; exact hmc
+  have hl' : assocGet rc.localHelpers nm = none := by rw [hq]; exact hl
+  have hpath : Path.new ['v'] [.named ['v']] = .relative [.named ['v']] ['v'] := rfl
+  have hh : helperFromTemplate reg root (fuel + 4) ht rc out
+      = .ok { name := nm, params := [⟨some ['v'], .context j [['v']]⟩], hash := [], template := some (Tmpl.empty.pushElement (.raw s) lc.1 lc.2), inverse := none, blockParam := ht.blockParam, block := ht.block } rc out := by
+    simp [helperFromTemplate, hname, hparams, hhash, htpl, hinv, expandAsName, expandParams, expandParam, expandHash,
+      RM.bnd_apply, hmc', hpath, hev, Path.raw]
+  have hm1 := quiet_modifyAux rc0 rc (fun r => { r with contentProduced := false, indentBeforeWrite := rc.indentBeforeWrite || (ht.indentBeforeWrite && r.trailingNewline) }) out hq (hq.flags _ _ _)
+  have hcall := if_renders_selected reg root (fuel + 3) positive { name := nm, params := [⟨some ['v'], .context j [['v']]⟩], hash := [], template := some (Tmpl.empty.pushElement (.raw s) lc.1 lc.2), inverse := none, blockParam := ht.blockParam, block := ht.block } ⟨some ['v'], .context j [['v']]⟩ [] rfl
+  have hc4 : callHelper reg root (fuel + 4) (.ifH positive) { name := nm, params := [⟨some ['v'], .context j [['v']]⟩], hash := [], template := some (Tmpl.empty.pushElement (.raw s) lc.1 lc.2), inverse := none, blockParam := ht.blockParam, block := ht.block } = _ := hcall
+  simp only [renderElem, renderHelper, RM.bind_def, RM.bnd_apply, hh, RM.get_apply, hl', hr, hm1, hc4]
+  have hz : ((assocGet ([] : List (Str × PJ)) (str "includeZero")).bind fun x => x.json.asBool?).getD false = false := by simp [assocGet]
+  have hjs : ({ relPath := some ['v'], value := SJ.context j [['v']] } : PJ).json = j := rfl
+  simp only [hz, hjs]
+  have hqA : Quiet rc0 { rc with contentProduced := false, indentBeforeWrite := rc.indentBeforeWrite || (ht.indentBeforeWrite && rc.trailingNewline) } := hq.flags _ _ _
+  have finish : ∀ (rc2 : RC) (out2 : Out) (txt : Str), Quiet rc0 rc2 → out2.failAt = none → out2.text = out.text ++ txt →
+      ∃ rc' out', RM.modifyAux (fun rc_1 : RC => if rc_1.contentProduced = true then { rc_1 with indentBeforeWrite := rc_1.trailingNewline } else { rc_1 with contentProduced := rc.contentProduced, indentBeforeWrite := rc.indentBeforeWrite }) rc2 out2 = .ok () rc' out'
+        ∧ Quiet rc0 rc' ∧ out'.failAt = none ∧ out'.text = out.text ++ txt := by
+    intro rc2 out2 txt hq2 hf2 ht2
+    have hqG : Quiet rc0 ((fun rc_1 : RC => if rc_1.contentProduced = true then { rc_1 with indentBeforeWrite := rc_1.trailingNewline } else { rc_1 with contentProduced := rc.contentProduced, indentBeforeWrite := rc.indentBeforeWrite }) rc2) := by
+      by_cases hcp : rc2.contentProduced = true
+      · simp only [hcp, ↓reduceIte]; exact Quiet.flags hq2 _ _ _
+      · simp only [hcp, ↓reduceIte]; exact Quiet.flags hq2 _ _ _
+    exact ⟨_, _, quiet_modifyAux rc0 _ _ out2 hq2 hqG, hqG, hf2, ht2⟩
+  by_cases ht : (if positive = true then j.truthy false else !j.truthy false) = true
+  · simp only [ht, if_true]
+    obtain ⟨rc2, out2, hbody, hq2, hf2, ht2⟩ := render_text_template reg root rc0 _ out s lc fuel hi hct hqA hf
+    rw [hbody]
+    exact finish rc2 out2 s hq2 hf2 ht2
+  · simp only [ht, Bool.false_eq_true, if_false]
+    exact finish _ out [] hqA hf (by simp)
+
+/-- `{{#unless v}}A{{/unless}}` -/
+abbrev unlessBlockSrc : Str := PlainText.unSrc
+
+/-- **render(L ++ {{#unless v}}A{{/unless}} ++ R) = L ++ (A when data.v is FALSY, nothing otherwise) ++ R** – from the source string to
+    the bytes, for every text `L`, `R` and every data value: `unless` is the negation of `if` -/
+theorem unless_block_renders_by_falsiness (r : Registry) (fs : FS) (L R : Str) (data j : Json) (hdev : r.dev = false)
+    (hL : L = [] ∨ PlainText.TextBeforeTag L) (hR : PlainText.noOpen R)
+    (hun : assocGet r.helpers ['u', 'n', 'l', 'e', 's', 's'] = some (.ifH false))
+    (hsafe : Spec.indexSafe data [['v']] = true) (hj : Spec.descend data [['v']] = some j) :
+    r.renderTemplate fs (L ++ unlessBlockSrc ++ R) data = .ok (L ++ (if j.truthy false then [] else ['A']) ++ R) := by
+  unfold Registry.renderTemplate Registry.renderTemplateToWrite Registry.renderTemplateWithContextToWrite
+    Registry.compileForRenderTemplate
+  obtain ⟨m, hcomp⟩ := PlainText.compile_text_un_text L _ _ { preventIndent := r.preventIndent } hL (PlainText.textAfterTag_split R hR)
+  rw [← PlainText.split_ws R] at hcomp
+  rw [hcomp]
+  simp only [Registry.renderResolved, hdev, Bool.not_false, ↓reduceIte]
+  generalize Pest.lineCol (L ++ PlainText.unSrc ++ R) (L.length + 13) = lc
+  let txt : Str := if j.truthy false then [] else ['A']
+  let ets : List (Elem × Str) := (if L = [] then [] else [(.raw L, L)]) ++ [(.block (PlainText.unHT (PlainText.unBody lc)), txt)]
+    ++ (if R = [] then [] else [(.raw R, R)])
+  have hel : (PlainText.leftT L L).elements ++ [Elem.block (PlainText.unHT (PlainText.unBody lc))] ++ (if R = [] then [] else [Elem.raw R])
+      = ets.map (·.1) := by
+    simp only [ets]
+    by_cases hLe : L = [] <;> by_cases hRe : R = [] <;> simp [hLe, hRe, PlainText.leftT, Tmpl.empty, Tmpl.elements]
+  have htxt : (ets.map (·.2)).flatten = L ++ txt ++ R := by
+    simp only [ets]
+    by_cases hLe : L = [] <;> by_cases hRe : R = [] <;> simp [hLe, hRe]
+  rw [hel]
+  have hw : ∀ p ∈ ets, WritesText r data { ({ rootTemplate := none } : RC) with currentTemplate := none } p.1 p.2 := by
+    intro p hp
+    simp only [ets, List.mem_append, List.mem_singleton] at hp
+    rcases hp with (hp | rfl) | hp
+    · split at hp
+      · simp at hp
+      · simp at hp; subst hp; exact writes_raw r data _ rfl L
+    · have := cond_text_block_writes false ['u', 'n', 'l', 'e', 's', 's'] r data j { ({ rootTemplate := none } : RC) with currentTemplate := none }
+        (PlainText.unHT (PlainText.unBody lc)) ['A'] lc rfl rfl rfl rfl rfl rfl rfl rfl rfl rfl hun hsafe hj
+      have e : (if (if false = true then j.truthy false else !j.truthy false) = true then ['A'] else []) = txt := by
+        simp only [txt]
+        cases j.truthy false <;> simp
+      rw [e] at this
+      exact this
+    · split at hp
+      · simp at hp
+      · simp at hp; subst hp; exact writes_raw r data _ rfl R
+  have hlen : ets.length + 12 ≤ renderFuel := by
+    have h1 : (if L = [] then [] else [((Elem.raw L, L) : Elem × Str)]).length ≤ 1 := by split <;> simp
+    have h2 : (if R = [] then [] else [((Elem.raw R, R) : Elem × Str)]).length ≤ 1 := by split <;> simp
+    simp only [ets, List.length_append, List.length_singleton]
+    have : renderFuel = 4000 := rfl
+    omega
+  have := render_writes_template r data none ets m { rootTemplate := none } hlen hw
+  simp only [Tmpl.name] at this ⊢
+  rw [this, htxt]
+
+/-- **`if` and `unless` are complementary at source level**: on the same data exactly one of `{{#if v}}A{{/if}}` and
+    `{{#unless v}}A{{/unless}}` – between the same texts – writes its body -/
+theorem if_and_unless_are_complementary (r : Registry) (fs : FS) (L R : Str) (data j : Json) (hdev : r.dev = false)
+    (hL : L = [] ∨ PlainText.TextBeforeTag L) (hR : PlainText.noOpen R)
+    (hif : assocGet r.helpers ['i', 'f'] = some (.ifH true))
+    (hun : assocGet r.helpers ['u', 'n', 'l', 'e', 's', 's'] = some (.ifH false))
+    (hsafe : Spec.indexSafe data [['v']] = true) (hj : Spec.descend data [['v']] = some j) :
+    (r.renderTemplate fs (L ++ ifBlockSrc ++ R) data = .ok (L ++ ['A'] ++ R) ∧ r.renderTemplate fs (L ++ unlessBlockSrc ++ R) data = .ok (L ++ R))
+    ∨ (r.renderTemplate fs (L ++ ifBlockSrc ++ R) data = .ok (L ++ R) ∧ r.renderTemplate fs (L ++ unlessBlockSrc ++ R) data = .ok (L ++ ['A'] ++ R)) := by
+  have h1 := if_block_renders_by_truthiness r fs L R data j hdev hL hR hif hsafe hj
+  have h2 := unless_block_renders_by_falsiness r fs L R data j hdev hL hR hun hsafe hj
+  by_cases ht : j.truthy false = true
+  · left; simp only [ht, if_true, List.append_nil] at h1 h2; exact ⟨h1, h2⟩
+  · right
+    have hf : j.truthy false = false := by simpa using ht
+    simp only [hf, Bool.false_eq_true, if_false, List.append_nil] at h1 h2
+    exact ⟨h1, h2⟩
+
+example : assocGet Registry.new.helpers ['u', 'n', 'l', 'e', 's', 's'] = some (.ifH false) := by rfl
+
+/-! ### `{{#with v}}A{{/with}}` – at source level -/
+
+/-- the block element `{{#with v}}A{{/with}}` compiles to (non-strict mode): the body – rendered in the scope of the value – is
+    written when `data.v` is truthy, nothing otherwise; the scope pushed for the body is popped again -/
+theorem with_text_block_writes (reg : Registry) (root j : Json) (rc0 : RC) (lc : Nat × Nat) (hstrict : reg.strict = false)
+    (hb : rc0.blocks = [{}]) (hi : rc0.indentString = none) (hmc : rc0.modifiedCtx = none) (hct : rc0.currentTemplate = none)
+    (hl : assocGet rc0.localHelpers ['w', 'i', 't', 'h'] = none) (hr : assocGet reg.helpers ['w', 'i', 't', 'h'] = some .withH)
+    (hsafe : Spec.indexSafe root [['v']] = true) (hj : Spec.descend root [['v']] = some j) :
+    WritesText reg root rc0 (.block (PlainText.wiHT (PlainText.wiBody lc))) (if j.truthy false then ['A'] else []) := by
+  intro fuel rc out hq hf
+  have hblocks : rc.blocks = [{}] := by rw [hq.blocks, hb]
+  have hev : evaluate2 root (.relative [.named ['v']] ['v']) rc out = .ok (.context j [['v']]) rc out := by
+    have := C01.navigate_current_path_scope root {} [] ['v'] [] rc out (by simp [getInBlockParams, assocGet]) rfl (by simpa using hsafe)
+    simp only [C01.names, List.map_cons, List.map_nil] at this
+    simp only [evaluate2, RM.bind_def, RM.bnd_apply, RM.get_apply, hblocks, this, C01.blockValue, Spec.descend]
+    simp only [Option.bind]
+    have hj' : (Spec.step root ['v']).bind (fun v' => Spec.descend v' []) = some j := by simpa [Spec.descend] using hj
+    simp [Spec.descend] at hj' ⊢
+    rw [hj']
+  have hmc' : rc.modifiedCtx = none := by rw [hq]; exact hmc
+  have hl' : assocGet rc.localHelpers ['w', 'i', 't', 'h'] = none := by rw [hq]; exact hl
+  have hpath : Path.new ['v'] [.named ['v']] = .relative [.named ['v']] ['v'] := rfl
+  have hh : helperFromTemplate reg root (fuel + 4) (PlainText.wiHT (PlainText.wiBody lc)) rc out
+      = .ok { name := ['w', 'i', 't', 'h'], params := [⟨some ['v'], .context j [['v']]⟩], hash := [], template := some (PlainText.wiBody lc), inverse := none, blockParam := none, block := true } rc out := by
+    simp [helperFromTemplate, PlainText.wiHT, PlainText.wiOpen, HelperG.new, expandAsName, expandParams, expandParam, expandHash,
+      RM.bnd_apply, hmc', hpath, hev, Path.raw]
+  have hm1 := quiet_modifyAux rc0 rc (fun r => { r with contentProduced := false, indentBeforeWrite := rc.indentBeforeWrite || ((PlainText.wiHT (PlainText.wiBody lc)).indentBeforeWrite && r.trailingNewline) }) out hq (hq.flags _ _ _)
+  simp only [renderElem, renderHelper, RM.bind_def, RM.bnd_apply, hh, RM.get_apply, hl', hr, hm1]
+  have hibw : (PlainText.wiHT (PlainText.wiBody lc)).indentBeforeWrite = false := rfl
+  simp only [hibw, Bool.false_and, Bool.or_false]
+  have hqA : Quiet rc0 { rc with contentProduced := false } := hq.flags _ _ _
+  let rcA : RC := { rc with contentProduced := false }
+  have finish : ∀ (rc2 : RC) (out2 : Out) (txt : Str), Quiet rc0 rc2 → out2.failAt = none → out2.text = out.text ++ txt →
+      ∃ rc' out', RM.modifyAux (fun rc_1 : RC => if rc_1.contentProduced = true then { rc_1 with indentBeforeWrite := rc_1.trailingNewline } else { rc_1 with contentProduced := rc.contentProduced, indentBeforeWrite := rc.indentBeforeWrite }) rc2 out2 = .ok () rc' out'
+        ∧ Quiet rc0 rc' ∧ out'.failAt = none ∧ out'.text = out.text ++ txt := by
+    intro rc2 out2 txt hq2 hf2 ht2
+    have hqG : Quiet rc0 ((fun rc_1 : RC => if rc_1.contentProduced = true then { rc_1 with indentBeforeWrite := rc_1.trailingNewline } else { rc_1 with contentProduced := rc.contentProduced, indentBeforeWrite := rc.indentBeforeWrite }) rc2) := by
+      by_cases hcp : rc2.contentProduced = true
+      · simp only [hcp, ↓reduceIte]; exact Quiet.flags hq2 _ _ _
+      · simp only [hcp, ↓reduceIte]; exact Quiet.flags hq2 _ _ _
+    exact ⟨_, _, quiet_modifyAux rc0 _ _ out2 hq2 hqG, hqG, hf2, ht2⟩
+  by_cases ht : j.truthy false = true
+  · -- truthy: the body in the pushed scope
+    let rcP : RC := { rcA with blocks := { basePath := [['v']] } :: rcA.blocks }
+    obtain ⟨rc2, out2, hbody, hq2, hf2, ht2⟩ := render_text_template reg root rcP rcP out ['A'] lc fuel
+      (by show rc.indentString = none; rw [hq.indent]; exact hi) (by show rc.currentTemplate = none; rw [Quiet.template hq]; exact hct) (Quiet.refl _) hf
+    have hcall : callHelper reg root (fuel + 4) .withH { name := ['w', 'i', 't', 'h'], params := [⟨some ['v'], .context j [['v']]⟩], hash := [], template := some (PlainText.wiBody lc), inverse := none, blockParam := none, block := true } rcA out
+        = .ok () { rc2 with blocks := rc2.blocks.drop 1 } out2 := by
+      rw [show fuel + 4 = (fuel + 3) + 1 by omega]
+      simp only [callHelper, HelperKind.hasInner, Bool.false_eq_true, ↓reduceIte, List.getElem?_cons_zero, PJ.json, SJ.asJson, ht, PJ.contextPath,
+        SJ.contextPath, createBlock, HelperI.blockParam1, RM.withBlock, RM.bracket_apply]
+      unfold PlainText.wiBody
+      rw [hbody]
+    rw [hcall]
+    simp only [ht, if_true]
+    have hq4 : Quiet rc0 { rc2 with blocks := rc2.blocks.drop 1 } := by
+      have hrcA : Quiet rc0 rcA := hqA
+      unfold Quiet at hq2 hrcA ⊢
+      rw [hq2]
+      simp only [rcP, List.drop_succ_cons, List.drop_zero]
+      rw [hrcA]
+    exact finish _ out2 ['A'] hq4 hf2 ht2
+  · have hcall : callHelper reg root (fuel + 4) .withH { name := ['w', 'i', 't', 'h'], params := [⟨some ['v'], .context j [['v']]⟩], hash := [], template := some (PlainText.wiBody lc), inverse := none, blockParam := none, block := true } rcA out
+        = .ok () rcA out := by
+      rw [show fuel + 4 = (fuel + 3) + 1 by omega]
+      simp [callHelper, HelperKind.hasInner, PJ.json, SJ.asJson, ht, hstrict]
+    rw [hcall]
+    simp only [ht, Bool.false_eq_true, if_false]
+    exact finish rcA out [] hqA hf (by simp)
+
+/-- `{{#with v}}A{{/with}}` -/
+abbrev withBlockSrc : Str := PlainText.wiSrc
+
+/-- **render(L ++ {{#with v}}A{{/with}} ++ R) = L ++ (A when data.v is truthy, nothing otherwise) ++ R** in non-strict mode – from the
+    source string to the bytes, for every text `L`, `R` and every data value: `with` selects by the same truthiness as `if`
+    (0 is falsy), renders its body in the scope of the value and leaves the caller's scope as it was -/
+theorem with_block_renders_by_truthiness (r : Registry) (fs : FS) (L R : Str) (data j : Json) (hdev : r.dev = false)
+    (hstrict : r.strict = false)
+    (hL : L = [] ∨ PlainText.TextBeforeTag L) (hR : PlainText.noOpen R)
+    (hwith : assocGet r.helpers ['w', 'i', 't', 'h'] = some .withH)
+    (hsafe : Spec.indexSafe data [['v']] = true) (hj : Spec.descend data [['v']] = some j) :
+    r.renderTemplate fs (L ++ withBlockSrc ++ R) data = .ok (L ++ (if j.truthy false then ['A'] else []) ++ R) := by
+  unfold Registry.renderTemplate Registry.renderTemplateToWrite Registry.renderTemplateWithContextToWrite
+    Registry.compileForRenderTemplate
+  obtain ⟨m, hcomp⟩ := PlainText.compile_text_wi_text L _ _ { preventIndent := r.preventIndent } hL (PlainText.textAfterTag_split R hR)
+  rw [← PlainText.split_ws R] at hcomp
+  rw [hcomp]
+  simp only [Registry.renderResolved, hdev, Bool.not_false, ↓reduceIte]
+  generalize Pest.lineCol (L ++ PlainText.wiSrc ++ R) (L.length + 11) = lc
+  let txt : Str := if j.truthy false then ['A'] else []
+  let ets : List (Elem × Str) := (if L = [] then [] else [(.raw L, L)]) ++ [(.block (PlainText.wiHT (PlainText.wiBody lc)), txt)]
+    ++ (if R = [] then [] else [(.raw R, R)])
+  have hel : (PlainText.leftT L L).elements ++ [Elem.block (PlainText.wiHT (PlainText.wiBody lc))] ++ (if R = [] then [] else [Elem.raw R])
+      = ets.map (·.1) := by
+    simp only [ets]
+    by_cases hLe : L = [] <;> by_cases hRe : R = [] <;> simp [hLe, hRe, PlainText.leftT, Tmpl.empty, Tmpl.elements]
+  have htxt : (ets.map (·.2)).flatten = L ++ txt ++ R := by
+    simp only [ets]
+    by_cases hLe : L = [] <;> by_cases hRe : R = [] <;> simp [hLe, hRe]
+  rw [hel]
+  have hw : ∀ p ∈ ets, WritesText r data { ({ rootTemplate := none } : RC) with currentTemplate := none } p.1 p.2 := by
+    intro p hp
+    simp only [ets, List.mem_append, List.mem_singleton] at hp
+    rcases hp with (hp | rfl) | hp
+    · split at hp
+      · simp at hp
+      · simp at hp; subst hp; exact writes_raw r data _ rfl L
+    · exact with_text_block_writes r data j _ lc hstrict rfl rfl rfl rfl rfl hwith hsafe hj
+    · split at hp
+      · simp at hp
+      · simp at hp; subst hp; exact writes_raw r data _ rfl R
+  have hlen : ets.length + 12 ≤ renderFuel := by
+    have h1 : (if L = [] then [] else [((Elem.raw L, L) : Elem × Str)]).length ≤ 1 := by split <;> simp
+    have h2 : (if R = [] then [] else [((Elem.raw R, R) : Elem × Str)]).length ≤ 1 := by split <;> simp
+    simp only [ets, List.length_append, List.length_singleton]
+    have : renderFuel = 4000 := rfl
+    omega
+  have := render_writes_template r data none ets m { rootTemplate := none } hlen hw
+  simp only [Tmpl.name] at this ⊢
+  rw [this, htxt]
+
+example : assocGet Registry.new.helpers ['w', 'i', 't', 'h'] = some .withH := by rfl
 
 end Hbs.C06
